@@ -56,6 +56,7 @@ type LJob struct {
 	Kill    int    `json:"kill"`
 	Del     bool   `json:"del"`
 	Fz      bool   `json:"fz"`
+	Hold    bool   `json:"hold"` // a finalizer other than furiko's is present
 	Adm     bool   `json:"adm"`
 	Phase   string `json:"phase"`
 	State   string `json:"state"`
@@ -149,6 +150,7 @@ type JLOpts struct {
 	Slow       bool   // random scheduler: kubelets are slow to start containers (tasks stay Pending for long)
 	Flaky      bool   // random scheduler: nodes go down often
 	Delivered  bool   // the Job's add event is already delivered when the run starts (initial state of spec/JobLife.tla)
+	Hold       bool   // the Job is submitted with another controller's finalizer (and without furiko's: the webhook adds that one)
 	ForeignBy  string // controller owner of the foreign Pod: "" (ReplicaSet) | "job" (another Job object of the same name) | "none"
 }
 
@@ -187,6 +189,7 @@ func (j *JL) admission() *sw.Admission {
 }
 
 const jlName = "j"
+const holdFinalizer = "example.com/hold"
 
 func NewJL(o JLOpts, t *sw.Tracer, run int) *JL {
 	j := &JL{O: o, T: t, Run: run, vers: map[string]int{}, ever: map[string]LPod{}, succ: map[int]bool{}, nokube: map[string]bool{}}
@@ -208,11 +211,14 @@ func NewJL(o JLOpts, t *sw.Tracer, run int) *JL {
 	}
 	j.W.Cfg.SetConfigs(map[configv1alpha1.ConfigName]runtime.Object{configv1alpha1.JobExecutionConfigName: cfgobj})
 	job := &execution.Job{
-		ObjectMeta: metav1.ObjectMeta{Name: jlName, Namespace: ns, Finalizers: []string{executiongroup.DeleteDependentsFinalizer}},
+		ObjectMeta: metav1.ObjectMeta{Name: jlName, Namespace: ns}, // furiko's finalizer is added by the mutating webhook
 		Spec: execution.JobSpec{Type: execution.JobTypeAdhoc, Template: &execution.JobTemplate{
 			MaxAttempts: pointer.Int64(int64(o.MaxAtt)), RetryDelaySeconds: pointer.Int64(int64(o.Delay)), ForbidTaskForceDeletion: o.Forbid,
 			TaskTemplate: execution.TaskTemplate{Pod: &execution.PodTemplateSpec{Spec: corev1.PodSpec{Containers: []corev1.Container{{Name: "c", Image: "x"}}}}},
 		}},
+	}
+	if o.Hold {
+		job.Finalizers = []string{holdFinalizer}
 	}
 	if o.JobPT >= 0 {
 		job.Spec.Template.TaskPendingTimeoutSeconds = pointer.Int64(int64(o.JobPT))
@@ -319,6 +325,8 @@ func (j *JL) projJob(o runtime.Object) LJob {
 	for _, f := range x.Finalizers {
 		if f == executiongroup.DeleteDependentsFinalizer {
 			p.Fz = true
+		} else {
+			p.Hold = true
 		}
 	}
 	_, p.Adm = jobutil.GetAdmissionErrorMessage(x)
@@ -548,6 +556,25 @@ func (j *JL) Apply(l Label) bool {
 		if _, err := w.API.Direct("user", ktesting.NewUpdateAction(sw.JobsGVR, ns, upd)); err != nil {
 			panic(err)
 		}
+	case "ReleaseHold": // the other controller gives up its finalizer on the Job that is being deleted
+		cur := j.jobObj()
+		if cur == nil || cur.DeletionTimestamp == nil {
+			return false
+		}
+		var keep []string
+		for _, f := range cur.Finalizers {
+			if f != holdFinalizer {
+				keep = append(keep, f)
+			}
+		}
+		if len(keep) == len(cur.Finalizers) {
+			return false
+		}
+		cur.Finalizers = keep
+		cur.ResourceVersion = ""
+		if _, err := w.API.Direct("user", ktesting.NewUpdateAction(sw.JobsGVR, ns, cur)); err != nil {
+			panic(err)
+		}
 	case "UserDelete":
 		cur := j.jobObj()
 		if cur == nil || cur.DeletionTimestamp != nil {
@@ -749,6 +776,13 @@ func (j *JL) Enabled(rng *rand.Rand, maxTime int, faultP float64, applied bool) 
 	if job != nil && job.DeletionTimestamp == nil && rng.Intn(25) == 0 {
 		add(Label{A: "UserDelete"}, 1)
 	}
+	if job != nil && job.DeletionTimestamp != nil && j.O.Hold && rng.Intn(4) == 0 {
+		for _, f := range job.Finalizers {
+			if f == holdFinalizer {
+				add(Label{A: "ReleaseHold"}, 1)
+			}
+		}
+	}
 	live, term, all := j.livePods()
 	for _, n := range live {
 		p := j.podObj(n)
@@ -825,6 +859,11 @@ func (j *JL) Finale(budget int) bool {
 		j.emit("DrainFailed", Label{A: "DrainFailed"}, nil)
 		return false
 	}
+	// the other controller releases its finalizer at the latest now
+	if j.Apply(Label{A: "ReleaseHold"}) && !j.Drain(budget) {
+		j.emit("DrainFailed", Label{A: "DrainFailed"}, nil)
+		return false
+	}
 	j.emit("Final", Label{A: "Final"}, nil)
 	return true
 }
@@ -850,7 +889,7 @@ func randJLOpts(rng *rand.Rand, skew, fresh bool) JLOpts {
 	o := JLOpts{N: 1 + rng.Intn(3), MaxAtt: 1 + rng.Intn(3), Delay: []int{0, 0, 2}[rng.Intn(3)], Strategy: []string{"AllSuccessful", "AnySuccessful"}[rng.Intn(2)],
 		JobPT: []int{-1, -1, 0, 3}[rng.Intn(4)], CfgPT: []int{-1, 0, 4}[rng.Intn(3)], JobTTL: []int{-1, 0, 4}[rng.Intn(3)], CfgTTL: []int{-1, 6}[rng.Intn(2)],
 		CfgFD: []int{-1, 0, 3}[rng.Intn(3)], Forbid: rng.Intn(6) == 0, Foreign: rng.Intn(10) == 0, PodLagFree: skew, Fresh: fresh,
-		Slow: rng.Intn(3) == 0, Flaky: rng.Intn(4) == 0, ForeignBy: []string{"", "job", "none"}[rng.Intn(3)]}
+		Slow: rng.Intn(3) == 0, Flaky: rng.Intn(4) == 0, Hold: rng.Intn(5) == 0, ForeignBy: []string{"", "job", "none"}[rng.Intn(3)]}
 	o.Par = o.N > 1 || rng.Intn(2) == 0
 	return o
 }
@@ -858,6 +897,7 @@ func randJLOpts(rng *rand.Rand, skew, fresh bool) JLOpts {
 func JobLifeMain(args []string) (interface{}, error) {
 	fs := flag.NewFlagSet("joblife", flag.ContinueOnError)
 	mode := fs.String("mode", "random", "random | replay")
+	suffix := fs.Int("suffix", 0, "replay: seeded random steps appended to every replayed schedule before the drain")
 	seed := fs.Int64("seed", 1, "seed")
 	runs := fs.Int("runs", 60, "random runs")
 	steps := fs.Int("steps", 120, "steps per run")
@@ -966,6 +1006,16 @@ func JobLifeMain(args []string) (interface{}, error) {
 							sum.DriftSample = append(sum.DriftSample, fmt.Sprintf("run %d step %d %s %s: spec %+v real %+v", r, si, l.A, l.X, *exp, got))
 						}
 					}
+				}
+			}
+			// directed schedules: continue from the reached state with seeded random steps before draining
+			for k := 0; k < *suffix; k++ {
+				en := j.Enabled(rng, j.W.Now()+3, *faultP, *applied)
+				if len(en) == 0 {
+					break
+				}
+				if !apply(j, en[rng.Intn(len(en))]) {
+					break
 				}
 			}
 			if !j.Finale(3000) {
